@@ -306,7 +306,7 @@ func (p *party) KeyGen(ctx context.Context) ([]byte, error) {
 	}
 	preParams, err := keygen.GeneratePreParams(preParamGenTimeout)
 	if err != nil {
-		panic(err)
+		return nil, fmt.Errorf("failed generating pre-parameters: %w", err)
 	}
 
 	end := make(chan *keygen.LocalPartySaveData, 1)
